@@ -516,6 +516,15 @@ def m_iter(it, v):
 
 @model(builtins.round)
 def m_round(it, v, nd=None):
+    if isinstance(v, SV) and nd is None and v.kind in ("real", "int"):
+        if v.kind == "int":
+            return v
+        # round half to even (python 3): the integer r with |x - r| <= 1/2, even on ties
+        x = v.e
+        fl = z3.ToInt(x)
+        frac = x - z3.ToReal(fl)
+        r = z3.If(frac < z3.RealVal("1/2"), fl, z3.If(frac > z3.RealVal("1/2"), fl + 1, z3.If(fl % 2 == 0, fl, fl + 1)))
+        return SV(z3.simplify(r), "int")
     if is_sym(v) or is_sym(nd):
         raise OutOfSubset("round() of symbolic value")
     try:
